@@ -11,7 +11,7 @@ pub fn prop() -> Prop {
     Prop {
         id: "C05",
         level: "exploration",
-        rule: "complete enumerations of inputs to the public eval(): (1) all token strings of length <= L over the full token vocabulary (every keyword, operator and delimiter, an identifier, a builtin name, int, float, string, an illegal character, a lone &), joined by one space; (2) all texts of <= n characters over an alphabet with one representative of every lexer character class; (3) every char-boundary truncation and every single-token deletion, duplication, adjacent swap and replacement by every vocabulary token of every corpus program; (3b) every ordered pair of characters of a 125-character alphabet (all printable ASCII, tab / newline / carriage return, Unicode representatives of every class) in 13 positions: in a string literal raw and after a backslash, at the end of an unterminated literal, in a comment, in / after a word, a number, a literal, as an operator, in a print format; (4) a directed boundary family (literal lengths, zero divisors and range ends, every arity mismatch up to 4x4, antwoord/stop/volgende at every position of a template, self-referential initialisers, multi-byte indexing at every index, size ladders across the 8- and 16-bit limits). Each input runs in an isolated worker under an address-space limit and a watchdog on an ordinary 8 MiB stack. Non-trivial = the input got past the lexer and parser (it compiled or failed later than parsing); distinct = distinct texts; values that contain themselves or each other (six shapes: self, mutual, ring of three, through a fresh list, two equal rings, a diamond of depth 12) under every operator in 9 operand arrangements, every builtin with 1 / 2 / nested arguments, indexing, element assignment, rendering and as the result",
+        rule: "complete enumerations of inputs to the public eval(): (1) all token strings of length <= L over the full token vocabulary (every keyword, operator and delimiter, an identifier, a builtin name, int, float, string, an illegal character, a lone &), joined by one space; (2) all texts of <= n characters over an alphabet with one representative of every lexer character class; (3) every char-boundary truncation and every single-token deletion, duplication, adjacent swap and replacement by every vocabulary token of every corpus program; (3b) every ordered pair of characters of a 125-character alphabet (all printable ASCII, tab / newline / carriage return, Unicode representatives of every class) in 13 positions: in a string literal raw and after a backslash, at the end of an unterminated literal, in a comment, in / after a word, a number, a literal, as an operator, in a print format; (4) a directed boundary family (literal lengths, zero divisors and range ends, every arity mismatch up to 4x4, antwoord/stop/volgende at every position of a template, self-referential initialisers, multi-byte indexing at every index, size ladders across the 8- and 16-bit limits). Each input runs in an isolated worker under an address-space limit and a watchdog on an ordinary 8 MiB stack. Non-trivial = the input got past the lexer and parser (it compiled or failed later than parsing); distinct = distinct texts; values that contain themselves or each other (six shapes: self, mutual, ring of three, through a fresh list, two equal rings, a diamond of depth 12) under every operator in 9 operand arrangements, every builtin with 1 / 2 / nested arguments, indexing, element assignment, rendering and as the result; self-nesting of every short token template (all token strings of <= 4 tokens over ten tokens and of 5 over six, a hole at every position, nested 45 times in itself around a leaf): time and memory stay in proportion to the text",
         assumptions: &[
             "an instruction-budget exhaustion is accepted only for inputs that spell out a loop or a function (zolang / functie)",
             "long random noise is outside what enumeration reaches; only the stated bounded spaces are covered",
@@ -236,9 +236,71 @@ fn cyclic_values(sh: &mut Shard) {
     }
 }
 
+/// Self-nesting of EVERY short token template: all token strings of up to 4 tokens over {a 1 [ ] ( ) = += - ,}
+/// (and of 5 tokens over {a 1 [ ] = +=}; thorough: also { } als functie and 5 tokens over ten) with a hole at every
+/// position, the template put into its own hole 45 times around a leaf. Whatever the grammar makes of the
+/// template — most are refused at once — reading it costs time and memory in proportion to the text: a
+/// construct that copies or re-reads its operand doubles the work per level and ends the process.
+fn self_nesting(sh: &mut Shard, tier: Tier) {
+    let b = 2_000_000;
+    let depth = 45;
+    let v10: &[&str] = &["a", "1", "[", "]", "(", ")", "=", "+=", "-", ","];
+    let v6: &[&str] = &["a", "1", "[", "]", "=", "+="];
+    let v14: &[&str] = &["a", "1", "[", "]", "(", ")", "=", "+=", "-", ",", "{", "}", "als", "functie"];
+    let plans: Vec<(&[&str], usize)> = if tier == Tier::Quick { vec![(v10, 4), (v6, 5)] } else { vec![(v14, 4), (v10, 5)] };
+    let mut seen: std::collections::HashSet<String> = std::collections::HashSet::new();
+    for (vocab, maxlen) in plans {
+        for len in 1..=maxlen {
+            let mut idx = vec![0usize; len];
+            loop {
+                let toks: Vec<&str> = idx.iter().map(|i| vocab[*i]).collect();
+                for hole in 0..=len {
+                    let before = toks[..hole].join(" ");
+                    let after = toks[hole..].join(" ");
+                    let key = format!("{before}\u{0}{after}");
+                    if seen.insert(key) {
+                        let mut text = String::with_capacity((before.len() + after.len() + 2) * depth + 1);
+                        for _ in 0..depth {
+                            text.push_str(&before);
+                            text.push(' ');
+                        }
+                        text.push('a');
+                        for _ in 0..depth {
+                            text.push(' ');
+                            text.push_str(&after);
+                        }
+                        case(sh, "self-nesting", &format!("stel a = [0]; {text}"), b);
+                    }
+                }
+                // next template
+                let mut k = len;
+                loop {
+                    if k == 0 {
+                        break;
+                    }
+                    k -= 1;
+                    idx[k] += 1;
+                    if idx[k] < vocab.len() {
+                        break;
+                    }
+                    idx[k] = 0;
+                    if k == 0 {
+                        k = usize::MAX;
+                        break;
+                    }
+                }
+                if k == usize::MAX {
+                    break;
+                }
+            }
+        }
+    }
+}
+
 fn directed(sh: &mut Shard, tier: Tier) {
     let b = 2_000_000;
     cyclic_values(sh);
+    self_nesting(sh, tier);
     // literal lengths
     for n in 1..=40usize {
         for d in ["9", "1"] {
